@@ -133,7 +133,8 @@ Inductive outcome := Ok | EKey | EOS | ERuntime | EValue | ERecursion | EAttr.
 
 (** ---- link creation with HDF5's create-intermediate-groups property list.
     [ensure] walks the parent components from object (f,o), creating the missing groups. *)
-Fixpoint ensure (w : world) (f : fid) (o : nat) (comps : path) : option (world * fid * nat) :=
+Fixpoint ensure_gen (fol : world -> fid -> link -> res)
+         (w : world) (f : fid) (o : nat) (comps : path) : option (world * fid * nat) :=
   match comps with
   | [] => Some (w, f, o)
   | c :: rest =>
@@ -143,16 +144,20 @@ Fixpoint ensure (w : world) (f : fid) (o : nat) (comps : path) : option (world *
           | None =>
               let '(w1, g) := alloc w f (Group [] []) in
               let w2 := set_obj w1 f o (Group a (ins_sorted c (Hard g) ls)) in
-              ensure w2 f g rest
+              ensure_gen fol w2 f g rest
           | Some l =>
-              match follow w f l with
-              | Found f' o' => ensure w f' o' rest
+              match fol w f l with
+              | Found f' o' => ensure_gen fol w f' o' rest
               | _ => None
               end
           end
       | _ => None
       end
   end.
+
+(* (the fixpoints of this file take the fuel-bounded functions they call as parameters, so that
+   the termination check never has to unfold a [walk FUEL]) *)
+Definition ensure := ensure_gen follow.
 
 (** bind name n in group (f,g) to link l (no overwrite) *)
 Definition bind (w : world) (f : fid) (g : nat) (n : string) (l : link) : option world :=
@@ -257,21 +262,24 @@ Definition set_attrs (w : world) (f : fid) (o : nat) (b : list (string * aval)) 
 Definition res_err (r : res) : outcome :=
   match r with Found _ _ => Ok | Missing => EKey | Loop => ERuntime end.
 
-Fixpoint copy_children (w : world) (sf : fid) (so : nat) (names : list (string * link))
+Fixpoint copy_children_gen (fol : world -> fid -> link -> res)
+         (cpy : world -> fid -> nat -> fid -> nat -> path -> outcome * world)
+         (w : world) (sf : fid) (so : nat) (names : list (string * link))
          (df : fid) : outcome * world :=
   match names with
   | [] => (Ok, w)
   | (n, l) :: rest =>
       (* src.copy(src_group + "/" + subgrp, dst, subgrp) : the source is resolved by HDF5 *)
-      match follow w sf l with
+      match fol w sf l with
       | Found f1 o1 =>
-          match h5copy w f1 o1 df O [n] with
-          | (Ok, w1) => copy_children w1 sf so rest df
+          match cpy w f1 o1 df O [n] with
+          | (Ok, w1) => copy_children_gen fol cpy w1 sf so rest df
           | e => e
           end
       | _ => (ERuntime, w)
       end
   end.
+Definition copy_children := copy_children_gen follow h5copy.
 
 Definition _copy (w : world) (sf : fid) (sp : path) (df : fid) (dp : path)
            (overwrite link rename soft_link : bool) : outcome * world :=
@@ -365,36 +373,40 @@ Definition is_cooler (w : world) (f : fid) (p : path) : tri :=
 Definition child_name (name : path) (k : string) (l : link) : path :=
   match l with Ext _ q => q | _ => name ++ [k] end.
 
-Fixpoint open_children (w : world) (f : fid) (name : path) (ls : list (string * link))
+Fixpoint open_children_gen (fol : world -> fid -> link -> res)
+         (w : world) (f : fid) (name : path) (ls : list (string * link))
   : option (list (path * res)) :=
   match ls with
   | [] => Some []
   | (k, l) :: r =>
-      match follow w f l with
+      match fol w f l with
       | Loop => None                                        (* RuntimeError out of Group.get *)
-      | x => match open_children w f name r with
+      | x => match open_children_gen fol w f name r with
              | Some t => Some ((child_name name k l, x) :: t)
              | None => None
              end
       end
   end.
 
+Definition open_children := open_children_gen follow.
+
 Definition visit_result := (outcome * list (path * fid * nat))%type.
 
-Fixpoint visit (fuel : nat) (w : world) (f : fid) (o : nat) (name : path) : visit_result :=
+Fixpoint visit_gen (opn : world -> fid -> path -> list (string * link) -> option (list (path * res)))
+         (fuel : nat) (w : world) (f : fid) (o : nat) (name : path) : visit_result :=
   match fuel with
   | O => (ERecursion, [])
   | S k =>
       match obj_at w f o with
       | Some (Group _ ls) =>
-          match open_children w f name ls with
+          match opn w f name ls with
           | None => (ERuntime, [])
           | Some cs =>
               (fix go (cs : list (path * res)) : visit_result :=
                  match cs with
                  | [] => (Ok, [])
                  | (nm, Found f1 o1) :: r =>
-                     match visit k w f1 o1 nm with
+                     match visit_gen opn k w f1 o1 nm with
                      | (Ok, sub) =>
                          match go r with
                          | (Ok, t) => (Ok, (nm, f1, o1) :: sub ++ t)
@@ -408,6 +420,8 @@ Fixpoint visit (fuel : nat) (w : world) (f : fid) (o : nat) (name : path) : visi
       | _ => (Ok, [])                                       (* datasets have no children *)
       end
   end.
+
+Definition visit := visit_gen open_children.
 
 Definition VISIT_FUEL : nat := 40.
 
@@ -476,12 +490,14 @@ Definition create_group (w : world) (f : fid) (p : path) : outcome * world :=
       end
   end.
 
-Fixpoint del_if_present (w : world) (f : fid) (names : list string) : world :=
+Fixpoint del_if_present_gen (cont : world -> fid -> path -> bool) (del : world -> fid -> path -> outcome * world)
+         (w : world) (f : fid) (names : list string) : world :=
   match names with
   | [] => w
-  | n :: r => let w1 := if contains w f [n] then snd (del_link w f [n]) else w in
-              del_if_present w1 f r
+  | n :: r => let w1 := if cont w f [n] then snd (del w f [n]) else w in
+              del_if_present_gen cont del w1 f r
   end.
+Definition del_if_present := del_if_present_gen contains del_link.
 
 (** create(cool_uri, ..., mode): h5py.File(file, mode); at "/" the four table groups are
     unlinked if present, elsewhere the target group is created (an existing one is unlinked
@@ -588,11 +604,13 @@ Definition observe (probes : list path) (w : world) :=
   map (fun f => (light (dump_file 3 w f), list_coolers w f, map (is_cooler w f) probes)) [FA; FB].
 
 (** run a history, observing after every step; the full dump of both files at the end *)
-Fixpoint trace_steps (probes : list path) (w : world) (ops : list op) :=
+Fixpoint trace_steps_gen {O} (stp : world -> op -> outcome * world) (obs : world -> O)
+         (w : world) (ops : list op) : list (outcome * O) :=
   match ops with
   | [] => []
-  | o :: r => let '(e, w1) := step w o in (e, observe probes w1) :: trace_steps probes w1 r
+  | o :: r => let '(e, w1) := stp w o in (e, obs w1) :: trace_steps_gen stp obs w1 r
   end.
+Definition trace_steps (probes : list path) := trace_steps_gen step (observe probes).
 Definition trace (probes : list path) (ops : list op) :=
   (trace_steps probes world0 ops,
    map (fun f => dump_file 5 (run world0 ops) f) [FA; FB]).
